@@ -77,6 +77,7 @@ SencEntryBytes(ivSize, subs) == ivSize + (IF subs = <<>> THEN 0 ELSE 2 + 6 * Len
 (* ----------------------------------------------------------- generator *)
 Kinds == IF Codec = "audio" THEN {"a"} ELSE {"v", "n"}
 NalSet == [kind : Kinds, len : {l \in Lens : l >= HdrLen}]      \* a header-only unit (end of sequence / stream) is a legitimate NAL unit
+          \cup (IF 0 \in Lens /\ Codec # "audio" THEN {[kind |-> "n", len |-> 0]} ELSE {})   \* a bare length field of 0 (padding some muxers emit): not video, stays clear
 VARIABLES nals
 Init == IF Many = {} THEN nals = <<>> ELSE nals \in {[i \in 1 .. n |-> [kind |-> "v", len |-> 200]] : n \in Many}
 Add(n) == Many = {} /\ Len(nals) < (IF Codec = "audio" THEN 1 ELSE MaxNals) /\ nals' = Append(nals, n)
